@@ -718,6 +718,28 @@ func c13Stability(x *engine.Ctx, base c13Base, h0 string, w0 *simfs.World) {
 		b.Cfg.Path = p
 		check("file-name "+p, b)
 	}
+	// JSON with the top-level keys in reverse order and the same content under another file name
+	{
+		b := c13Clone(base)
+		if b.Cfg.Alias == "" {
+			b.Cfg.Alias = Stem(base.Cfg.Path)
+		}
+		b.Cfg.Path = "reordered.json"
+		_, w := c13World(b)
+		tree := b.Cfg.Tree()
+		rev := refcfg.Map{}
+		for i := len(tree) - 1; i >= 0; i-- {
+			rev = append(rev, tree[i])
+		}
+		w.Put(b.Cfg.Path, []byte(refcfg.JSON(rev)))
+		res := drive.Run(w, drive.Default, nil)
+		x.Eval(1)
+		if a := ReadArtifact(w, b.Cfg.Path); !res.OK() || a.Pem == nil || a.Pem.HashLine == nil {
+			x.Violation("C13/stability/run-failed dim=json-key-order", fmt.Sprintf("base %q: %v", base.Name, res.Err()))
+		} else if *a.Pem.HashLine != h0 {
+			x.Violation("C13/hash-unstable dim=json-key-order", fmt.Sprintf("base %q: hash %s with reversed key order, %s originally", base.Name, *a.Pem.HashLine, h0))
+		}
+	}
 	// own alias
 	for _, a := range []string{"alias-one", "alias-two"} {
 		b := c13Clone(base)
